@@ -1,5 +1,6 @@
 import TextxVerif.Proofs.LoadTreeFrame
 import TextxVerif.Proofs.LoadTreeHist
+import TextxVerif.LoadTreePinned
 /-!
 # C15 — a failed load leaves nothing behind
 
@@ -128,6 +129,42 @@ theorem C15_no_discard_false :
     ∃ (sh : Sh Nat) (P : PRec), sh.attrs = [] ∧ (alloc 0 P sh).1.attrs ≠ [] ∧
       (discard (alloc 0 P sh).2.1 (alloc 0 P sh).1).1.attrs = [] :=
   ⟨⟨fun c => ⟨0, .real c, none⟩, [], 0, [], []⟩, newRec 1 [0] [] false [], rfl, by decide, by decide⟩
+
+namespace PinnedWit
+def clean : Sh Nat := ⟨fun c => ⟨0, .real c, none⟩, [], 0, [], []⟩
+def h0 (lab : Nat) : Hook := ⟨lab, [], false⟩
+/-- single file, two nested user objects, the constructor of the inner one raises -/
+def one : Load := .mk 1 [0] true (.obj (some 0) (h0 10) [.obj (some 0) ⟨11, [], true⟩ []]) none [] [] false [] (h0 10)
+def imp : Load := .mk 2 [0] true (.obj (some 0) (h0 20) []) none [] [] false [] (h0 20)
+/-- two files, an unresolvable reference in the main file -/
+def two : Load := .mk 1 [0] true (.obj (some 0) (h0 10) []) none [imp] [] true [] (h0 10)
+/-- a file with a syntax error -/
+def bad : Load := .mk 3 [0] false (.obj (some 0) (h0 30) []) none [] [] false [] (h0 30)
+/-- a match-rule processor loads `bad` and swallows the error; another match-rule processor follows -/
+def outer : Load := .mk 1 [0] true (.obj (some 0) (h0 10) [.conv ⟨11, [(1, true)], false⟩, .conv (h0 13)])
+  none [] [] false [] (h0 10)
+end PinnedWit
+
+open PinnedWit in
+/-- **The pinned code, as a whole machine, breaks the property** (`LoadTreePinned.lean`: the same walk
+with the pinned handlers — restore without a per-parser flag, no discard, no abort of imported
+parsers; compared with the pinned tree, see `notes/C15.md`).  (1) `one`: the key of the outer object stays in
+`_tx_obj_attrs` after the failure; (2) `two`: the imported file's parser never gives back its count,
+the class stays instrumented after the failure; (3) `outer`: the failing nested load un-instruments
+the outer load, the next match-rule processor of the outer load already sees the class restored
+(`(0, false, false, 1)`: one object under construction, its attributes no longer collected).
+The repaired machine ends clean on (1), (2) and keeps the class instrumented in (3). -/
+theorem C15_pinned_false :
+    (Pinned.runFP [] 1 one clean).2 = false ∧ (Pinned.runFP [] 1 one clean).1.attrs = [(0, 0)] ∧
+    (runF [] 1 one clean).1.attrs = [] ∧
+    (Pinned.runFP [] 1 two clean).2 = false ∧
+    (Pinned.runFP [] 1 two clean).1.core 0 = ⟨1, .instr, some (.real 0)⟩ ∧
+    (runF [] 1 two clean).1.core 0 = ⟨0, .real 0, none⟩ ∧
+    ((Pinned.runFP [outer, bad] 2 outer clean).1.own.filter (·.kind == 0)).map (·.snap) =
+      [[(1, true, true, 1)], [(0, false, false, 1)]] ∧
+    ((runF [outer, bad] 2 outer clean).1.own.filter (·.kind == 0)).map (·.snap) =
+      [[(1, true, true, 1)], [(1, true, true, 1)]] := by
+  decide
 
 /-! non-vacuity: failing attempts of every phase leave the clean state -/
 section
